@@ -94,9 +94,9 @@ CLAIM = {
             "unchanged - the hypothesis of C08's theorems); compiled_accepts_iff_tuple (main statement: the compiled, minimised automaton of a "
             "non-terminal predicts p on w iff w is one of p's lookahead strings, for every w); compiled_k_ge_tuple_length (k covers every tuple, so C08's "
             "eval reads far enough; unite_k_unfixed_counterexample keeps the pre-repair behaviour of unite as a checked counterexample); "
-            "minimize_order_indep_partial (results under any two iteration orders predict the same on every string, same k, both sorted). The full "
-            "syntactic order independence (MinimizeOrderIndep) is stated but not proved; it is checked per case (request `ord`: model under 6 choice "
-            "streams, real code 8 repetitions). Tied to the code by exact differential runs (state numbering included) through the real "
+            "minimize_order_indep (C24 part: the minimised automaton - transitions, state numbering, k - is the same under all iteration orders of the "
+            "two group_by calls; both merging phases compute the quotient by a fixed equivalence and keep the smallest member of each class, "
+            "renumbering is deterministic); additionally checked per case (request `ord`: model under 6 choice streams, real code 8 repetitions). Tied to the code by exact differential runs (state numbering included) through the real "
             "from_k_tuples/unite/CompiledDFA::from_lookahead_dfa on random tuple sets and automata and through the whole real pipeline on random LL(k) "
             "grammars; every real automaton is also judged directly by the reference run against the real tuple sets (all strings up to depth+1).",
     "design_ref": "DESIGN.md §6 C07 (and C24 for order independence)",
